@@ -510,7 +510,7 @@ def py_lane(pid, tier, seed, agg, meta, profiles=("debug", "release")):
             env = dict(O.BASE_ENV)
             env["PYTHONPATH"] = pkg_root
             env["JL_LIBCALL"] = jlmon
-            p = subprocess.Popen([sys.executable, child, cfile, ofile, str(skip_until)], env=env, stdout=subprocess.PIPE, stderr=subprocess.PIPE)
+            p = subprocess.Popen([sys.executable, child, cfile, ofile, str(skip_until)], env=env, stdout=subprocess.PIPE, stderr=subprocess.PIPE, preexec_fn=O.die_with_parent)
             try:
                 out, err = p.communicate(timeout=900 if tier == "quick" else 7200)
             except subprocess.TimeoutExpired:
